@@ -34,6 +34,10 @@ Stage "state": HippoHTTPFlow.from_state(flow.get_state(), session_manager), dire
   base URL, *identity* of session and region, request_injected, response_injected, can_stream, from_browser, URL, response
   (status, headers, body) are unchanged; plus the two-phase check through the real pumps: the cap data an addon sees in
   handle_http_response is the cap data resolved in the request phase (same objects).
+Stage "wrapper": requests to GetMesh2 / GetTexture / ViewerAsset ``...ProxyWrapper`` URLs x {redirect strategy, after a direct
+  asset-server request switched the manager to the URL-rewrite strategy} x can_stream {kept, cleared by either addon} x
+  {addon1, addon2 rewrites} x {path+query rewritten on the wrapper host, whole URL rewritten}: whichever form the hand-back
+  takes (injected 307 Location / rewritten request URL), it carries the addon's path and query on the original cap's host.
 Stage "proxy": every sequence of <= 3 (thorough 4) queue items over {callback, preempt} x {known id, unknown id, state whose
   set_state raises} + unknown event type + replay, fed to the real ``_pump_callbacks``: each callback/preempt item for a known
   flow calls that flow's resume() exactly once, nothing else is resumed.
@@ -48,6 +52,7 @@ import gc
 import io
 import itertools
 import pickle
+import urllib.parse
 import weakref
 import xmlrpc.client
 from typing import Any, Dict, List, Optional, Tuple
@@ -81,6 +86,8 @@ FAULTS = ("a1_raise_sw", "a1_raise_prop", "a2_raise_sw", "a2_raise_prop", "sess_
 ASSET_URL = "http://assets.test/mesh"
 LOGIN_URL = "https://login.test/cgi-bin/login.cgi"
 REWRITTEN = "http://rewritten.test:8080/new/path?y=2"
+REWRITTEN_PQ = "/rewritten/item?texture_id=00000000-0000-0000-0000-00000000beef&x=1"
+WRAPPED_CAPS = {"GetMesh2": ASSET_URL, "GetTexture": "http://assets.test/texture", "ViewerAsset": "http://asset-cdn.test:8080/asset"}
 INJ_STATUS, INJ_BODY, INJ_HEADERS = 203, b"injected by addon", {"X-Inj": "1", "Content-Type": "text/x-test"}
 MALFORMED = b"<llsd><map><key>broken"
 
@@ -169,6 +176,15 @@ class ScriptedAddon:
             elif b == "rewrite":
                 flow.request.url = REWRITTEN
                 self.log.append("rewrote")
+                self.board.append((self.name, "rewrote"))
+            elif b == "rewrite_pq":
+                flow.request.path = REWRITTEN_PQ            # same (wrapper) host, new path and query
+                self.log.append("rewrote-pq")
+                self.board.append((self.name, "rewrote-pq"))
+            elif b == "rewrite_nostream":
+                flow.request.url = REWRITTEN
+                flow.can_stream = False
+                self.log.append("rewrote+nostream")
                 self.board.append((self.name, "rewrote"))
             elif b == "nostream":
                 flow.can_stream = False
@@ -595,6 +611,75 @@ def evaluate_pump_case(case) -> Tuple[List[Dict[str, Any]], Any, bool]:
         env.close()
 
 
+# ---------------------------------------------------------------------------------------------------- wrapper caps
+def evaluate_wrapper_case(case) -> Tuple[List[Dict[str, Any]], Any, bool]:
+    """case = ("wrapper", cap name, proxied, nostream, who, rewrite kind).
+
+    A request to a ``<cap>ProxyWrapper`` URL is redirected by the event manager to the original cap host: either an injected
+    307 (Location) or, when an addon cleared can_stream / once ``_asset_server_proxied`` is set, by rewriting request.url.
+    Asserted (the statement's "any rewritten request survives"): whatever form the hand-back takes, the path and query an addon
+    hook wrote are what the callback state carries, on the original cap's host."""
+    _, cap_name, proxied, nostream, who, rw = case
+    w = World()
+    env = w.env
+    si, ri = 1, 1
+    viol: List[Dict[str, Any]] = []
+    try:
+        region = env.sessions[si].regions[ri]
+        if cap_name != "GetMesh2":
+            region.update_caps({cap_name: WRAPPED_CAPS[cap_name]})
+            wrapper_url = region.register_wrapper_cap(cap_name)
+        else:
+            wrapper_url = w.urls[(si, ri, "wrapper")]
+        orig_host = urllib.parse.urlsplit(WRAPPED_CAPS[cap_name]).netloc
+        if proxied:
+            # the real way the flag gets set: a request to the bare asset-server URL comes through the proxy
+            f0 = env.new_flow(ASSET_URL + f"/?mesh_id={UUID(int=0x6161)}", "GET", fid="asset-direct")
+            env.mitm_request(f0)
+            env.pump()
+            env.take_to_proxy()
+            if not env.em._asset_server_proxied:
+                raise HarnessError("direct asset request did not switch the event manager to the rewrite strategy")
+        fid = "wrapper-flow"
+        flow = env.new_flow(wrapper_url + f"/?texture_id={UUID(int=0x5151)}", "GET", fid=fid)
+        rewriter, other = (w.a1, w.a2) if who == "addon1" else (w.a2, w.a1)
+        if nostream:
+            # either the rewriting addon also clears can_stream, or the other addon does
+            rewriter.arm(fid, "request", "rewrite_nostream" if rw == "url" else "rewrite_pq", False)
+            other.arm(fid, "request", "nostream" if rw == "pq" else "ignore", False)
+        else:
+            rewriter.arm(fid, "request", "rewrite" if rw == "url" else "rewrite_pq", False)
+        env.mitm_request(flow)
+        exc = env.pump()
+        cbs = [i for i in env.take_to_proxy() if i[0] == "callback" and i[1] == fid]
+        site = f"_handle_request[{cap_name}ProxyWrapper]"
+        if len(cbs) != 1:
+            viol.append({"clause": "handback-immediate", "site": site, "detail": f"{case}: {len(cbs)} callbacks (pump raised {exc!r})"})
+            return viol, ("wrapper", "no-callback"), True
+        if not rewriter.called:
+            raise HarnessError(f"{case}: the rewriting addon's hook never ran")
+        got = HTTPFlow.from_state(cbs[0][2])
+        want = urllib.parse.urlsplit(REWRITTEN if rw == "url" else "http://x" + REWRITTEN_PQ)
+        r = got.response
+        if r is not None and r.status_code == 307 and r.headers.get("Location"):
+            mode, target = "redirect", r.headers["Location"]
+        else:
+            mode, target = "rewrite", got.request.url
+        t = urllib.parse.urlsplit(target)
+        if (t.path, t.query) != (want.path, want.query):
+            viol.append({"clause": "transfer-rewritten-url", "site": site + ":" + mode,
+                         "detail": f"{case}: addon rewrote the request to path {want.path!r} query {want.query!r}; the handed-back "
+                                   f"state {'redirects to' if mode == 'redirect' else 'requests'} {target!r}"})
+        elif t.netloc != orig_host:
+            viol.append({"clause": "wrapper-redirect-host", "site": site + ":" + mode,
+                         "detail": f"{case}: expected the original cap host {orig_host!r}, handed-back state points at {target!r}"})
+        if nostream and got.metadata.get("can_stream") is not False:
+            viol.append({"clause": "transfer-flag-can_stream", "site": site, "detail": f"{case}: can_stream {got.metadata.get('can_stream')!r}"})
+        return viol, ("wrapper", cap_name, proxied, nostream, who, rw, mode, r.status_code if r else None), True
+    finally:
+        env.close()
+
+
 # ---------------------------------------------------------------------------------------------------- state transfer
 MODS = ("rewrite", "inject", "nostream")
 
@@ -895,6 +980,13 @@ def cases_for(tier: str):
             for ri in (0, 1):
                 for flag in FLAGS:
                     cases.append(("twophase", kind, si, ri, flag))
+    # wrapper caps: an addon's rewrite must survive the event manager's own redirect
+    for cap_name in WRAPPED_CAPS:
+        for proxied in (False, True):
+            for nostream in (False, True):
+                for who in ("addon1", "addon2"):
+                    for rw in ("pq", "url"):
+                        cases.append(("wrapper", cap_name, proxied, nostream, who, rw))
     # proxy side
     maxlen = 4 if tier == "thorough" else 3
     for n in range(1, maxlen + 1):
@@ -918,6 +1010,8 @@ def _evaluate(case) -> Tuple[List[Dict[str, Any]], Any, bool]:
         return evaluate_twophase_case(case)
     if stage == "proxy":
         return evaluate_proxy_case(case)
+    if stage == "wrapper":
+        return evaluate_wrapper_case(case)
     raise ValueError(stage)
 
 
